@@ -105,13 +105,16 @@ func probeRun(name, stdin string, args []string) (out string, status int) {
 // programs
 
 // The 12 representative argument strings, by key name.
-var argNames = []string{"a", "empty", "b_c", "lead", "star", "qmark", "semi", "dollar", "dq", "sq", "dashn", "bslash", "b__c", "trail", "tab", "b_sq", "b_dq", "b_star", "pct", "pct_s"}
+var argNames = []string{"a", "empty", "b_c", "lead", "star", "qmark", "semi", "dollar", "dq", "sq", "dashn", "bslash", "b__c", "trail", "tab", "b_sq", "b_dq", "b_star", "pct", "pct_s", "b_tab", "b_nl", "b_ctl"}
 var argValue = map[string]string{"a": "a", "empty": "", "b_c": "b c", "lead": " lead", "star": "*", "qmark": "?", "semi": "a;b",
 	"dollar": "$HOME", "dq": `"q"`, "sq": "'q'", "dashn": "-n", "bslash": `\`, "b__c": "b  c", "trail": "t  ", "tab": "x\ty",
 	// a blank TOGETHER with a quote or a glob character (whatever quoting a blank triggers must still be right for the rest)
 	"b_sq": "it's a", "b_dq": `say "hi" x`, "b_star": "a *",
 	// a percent sign (a format verb to a careless printf / Sprintf)
-	"pct": "100%", "pct_s": "%s x %d"}
+	"pct": "100%", "pct_s": "%s x %d",
+	// a blank TOGETHER with a tab, a line break, a control character (what a quoting routine writes for the
+	// blank must not re-spell the other bytes)
+	"b_tab": "a b\tc", "b_nl": "a b\nc", "b_ctl": "a b\x01c"}
 
 var origins = []string{"literal", "var", "concat", "call", "capture"}
 
@@ -131,6 +134,8 @@ func tsQuote(s string) string {
 			b.WriteString(`\"`)
 		case '\\':
 			b.WriteString(`\\`)
+		case '\n':
+			b.WriteString(`\n`)
 		default:
 			b.WriteByte(c)
 		}
